@@ -38,6 +38,7 @@ var c10Kinds = []StackCfg{
 func genC10(t *rapid.T) c10Case {
 	c := c10Case{Stack: rapid.SampledFrom(c10Kinds).Draw(t, "stack")}
 	c.Stack.Inject = true
+	c.Stack.FmtLog = rapid.IntRange(0, 2).Draw(t, "debugLog") == 0 // the injected logger reports debug output as enabled
 	c.Stack.Strategy = rapid.SampledFrom([]string{"simple", "precise"}).Draw(t, "strategy")
 	c.Stack.Limit = rapid.IntRange(1, 2).Draw(t, "limit")
 	h := rapid.IntRange(1, c.Stack.Limit).Draw(t, "holders")
